@@ -83,6 +83,9 @@ class Gen:
                     return rng.choice(['%s["a"]' % v, '%s["b"][1]' % v, '%s["b"]' % v])
                 if sh and sh[0] in ("tuple", "list") and rng.random() < 0.7:
                     return "%s[%d]" % (v, rng.randrange(sh[1]))
+                if sh is None and info["plain"] and not info.get("elem") and rng.random() < f.get("index_plain", 0.12):
+                    # indexing an opaque result: symbolic terms support it and half of them are falsy
+                    return "%s[%r]" % (v, rng.choice([0, "k", 3]))
                 return v
             if for_op:
                 # numeric constants only: `'s' % x` is string formatting (a constant), not an operator node
